@@ -64,3 +64,53 @@ func ruleStitchVariableReserved(r *Run) {
 	}
 	r.AtLeast(rule, "stitching variables set by the executor", n, 1)
 }
+
+// ruleIDExemptionBySignature (R13o.id): the overlap analysis of shared types sets the relay id
+// aside — `id: ID!` without arguments, recognised by merger.isIDField. A field that is merely
+// CALLED id (`id: String!`, `id: [ID!]`) is an ordinary field whose declarations have to agree.
+// In the functions that take part in merging the fields of a shared type, a field is therefore
+// never singled out by comparing its name with the id constant outside that predicate.
+func ruleIDExemptionBySignature(r *Run) {
+	const rule = "R13o.id"
+	root := r.Anchor(rule, "merger.mergeCustomObjectFields")
+	pred := r.P.Fn("merger.isIDField")
+	if root == nil {
+		return
+	}
+	n := 0
+	for g := range r.P.CG.Reachable([]*ssa.Function{root}, nil) {
+		if topFn(g).Pkg != topFn(root).Pkg || g == pred {
+			continue
+		}
+		for _, ins := range allInstrs(g) {
+			switch x := ins.(type) {
+			case *ssa.Call:
+				if x.Call.StaticCallee() == pred && pred != nil {
+					n++
+				}
+			case *ssa.BinOp:
+				if x.Op != token.EQL && x.Op != token.NEQ {
+					continue
+				}
+				for _, p := range [][2]ssa.Value{{x.X, x.Y}, {x.Y, x.X}} {
+					c, isC := p[1].(*ssa.Const)
+					if !isC || c.Value == nil || c.Value.Kind() != constant.String || constant.StringVal(c.Value) != "id" {
+						continue
+					}
+					ld, ok := p[0].(*ssa.UnOp)
+					if !ok || ld.Op != token.MUL {
+						continue
+					}
+					fa, ok := ld.X.(*ssa.FieldAddr)
+					if !ok || fieldOf(fa) == nil || fieldOf(fa).Name() != "Name" || !strings.HasSuffix(namedOf(fa.X.Type()), "ast.FieldDefinition") {
+						continue
+					}
+					n++
+					r.Bad(rule, fnName(g), "field singled out by the name id", r.P.pos(x.Pos()),
+						"the merge of a shared type sets a field aside because it is CALLED id, not because it is the relay id (`id: ID!`, no arguments — merger.isIDField): `id: String!` in one service and `id: Int!` in another, or an `id: [ID!]` that only one side declares, no longer count as an overlap and are merged silently, the first listed service winning")
+				}
+			}
+		}
+	}
+	r.AtLeast(rule, "id exemptions in the merge of shared types", n, 1)
+}
